@@ -36,7 +36,7 @@ type CauchyDistribution struct {
 /* -------------------------------------------------------------------------- */
 
 func NewCauchyDistribution(mu, sigma Scalar) (*CauchyDistribution, error) {
-  if sigma.GetFloat64() <= 0.0 {
+  if !(sigma.GetFloat64() > 0.0) {
     return nil, fmt.Errorf("invalid parameters")
   }
   t  := mu.Type()
